@@ -297,6 +297,8 @@ def check(ctx):
     c01b.pointwise_rules(rep, model)
     c01b.copy_rules(rep, model)
     c01b.scalar_type_rules(rep, model)
+    c01b.pspace_scalar_rules(rep, model)
+    c01b.size_rules(rep, model)
     return rep
 
 
